@@ -113,9 +113,112 @@ def run(rep):
             if exp["k"] == "fails" and slot["k"] != "err":
                 break   # the failing spelling did not fail: what it bound is unspecified, stop comparing this program
     random_trace(rep, 150 if quick else 2500)
+    phrases_through_variables(rep, 60 if quick else 600)
 
 
 # ------------------------------------------------------------------------------------------------------
+# "every occurrence of the name in a later line denotes the most recently bound value" - also where the occurrence is the
+# operand of a phrase (conversion, shift, difference, percentage phrase).  Meaning.tla, form "via": if the name is bound
+# to the value of the operand, the phrase written with the name means what the phrase written with the operand means.
+# The phrase lines, their texts and their expectations are those TLC generated for the owning properties; the operand is
+# the leading part of the text whose own evaluation yields the operand's value (checked against the specification's
+# value for it) and that ends where the phrase's connective starts.
+# ------------------------------------------------------------------------------------------------------
+CONNECTIVES = {"to", "in", "as", "into", "at", "+", "-"}
+DUR_SECS = {"second": 1, "minute": 60, "hour": 3600, "day": 86400, "week": 7 * 86400, "month": 30 * 86400, "year": 365 * 86400}
+
+
+def operand_value(line, cfg):
+    """the specification's value of the leading operand of a phrase line, or None where the form has none we handle"""
+    import datetime
+    f = line["form"]
+    if f == "money_conv":
+        return {"k": "money", "q": line["x"]["q"], "cur": line["x"]["cur"]}
+    if f == "unit_conv":
+        return {"k": "unit", "q": line["x"]["q"], "u": line["x"]["u"]}
+    if f == "pct_phrase" and line["w"] in ("+", "-"):
+        x = line["x"]
+        return {"k": "money", "q": x["q"], "cur": x["cur"]} if x["cur"] else {"k": "num", "q": x["q"]}
+    if f in ("date_shift", "date_diff", "unix_to_date", "dt_at", "dt_unix", "dt_shift", "dt_conv"):
+        a = line["a"]
+        if "rel" in a or not a.get("y"):
+            return None
+        try:
+            return {"k": "date", "day": (datetime.date(a["y"], a["m"], a["d"]) - datetime.date(1970, 1, 1)).days}
+        except ValueError:
+            return None
+    if f in ("time_conv", "time_shift", "time_diff"):
+        z = line["z"]
+        off = z["off"] if z["name"] else cfg.get("tz_off", 0)
+        if not z["name"] and cfg.get("tz", "UTC") != "UTC" and "tz_off" not in cfg:
+            return None
+        return {"k": "time", "sod": (line["w"] - off * 60) % 86400, "off": off}
+    if f == "dur_as":
+        t = sum(p["n"] * DUR_SECS[p["u"]] for p in line["parts"])
+        return {"k": "dur", "d": t // 86400, "s": t % 86400}
+    if f in ("unix_from", "unix_round"):
+        return {"k": "num", "q": [line["ts"]["d"] * 86400 + line["ts"]["s"], 1, 0]}
+    return None
+
+
+def phrases_through_variables(rep, per_form):
+    import forms
+    from props import c05, c06, c09, c10, c11, c12, c14
+    rng = random.Random(rep.seed * 977 + 3)
+    by_form = {}
+    for m, home in ((c05, "C05"), (c06, "C06"), (c09, "C09"), (c10, "C10"), (c11, "C11"), (c12, "C12"), (c14, "C14")):
+        for it in forms.collect(m, rep, home=home):
+            if it.get("lang", "en") != "en" or it.get("pre") or it.get("today") is not None or it["expected"]["k"] in ("unspec", "fails"):
+                continue
+            ov = operand_value(it["line"], it["cfg"])
+            if ov is not None and "\n" not in it["text"] and "=" not in it["text"] and "#" not in it["text"]:
+                by_form.setdefault(it["line"]["form"], []).append((it, ov))
+    if len(by_form) < 8:
+        raise ToolError("vacuous: phrase forms with a leading operand: %s" % sorted(by_form))
+    picked = []
+    for f in sorted(by_form):
+        its = by_form[f]
+        picked += its if len(its) <= per_form else rng.sample(its, per_form)
+    cases, meta = [], []
+    for n, (it, ov) in enumerate(picked):
+        toks = it["text"].strip().split(" ")
+        name = " ".join(NAMES[n % len(NAMES)])
+        # the operand ends where the phrase's connective starts (or, in a keyword-less conversion, before the last word); a
+        # connective-looking word may belong to the operand (`5 in to cm`), hence every candidate is tried in order
+        ks = [k for k in range(1, len(toks)) if toks[k].lower() in CONNECTIVES] + [len(toks) - 1]
+        steps = []
+        for k in dict.fromkeys(ks):
+            if 1 <= k < len(toks):
+                steps.append({"op": "execute", "lang": "en", "text": "%s = %s\n%s %s" % (name, " ".join(toks[:k]), name, " ".join(toks[k:]))})
+        if steps:
+            cases.append({"id": "via%d" % n, "cfg": it["cfg"], "steps": steps[:4]})
+            meta.append((it, ov))
+    obs = run_harness_stable_day(cases, "c03.via", jobs=8)
+    used = 0
+    forms_used = set()
+    for case, (it, ov), o in zip(cases, meta, obs):
+        for st_in, st in zip(case["steps"], o.get("steps") or []):
+            ss = proj.slots_of_step(st)
+            if not ss or not ss[0] or len(ss[1]) != 2 or not compare.match_slot(ov, ss[1][0]):
+                continue
+            used += 1
+            forms_used.add(it["line"]["form"])
+            rep.case(["via", st_in["text"], it["cfg"]], True)
+            rep.replayed += 1
+            slot = ss[1][1]
+            forms.project_extra(slot, it)
+            if not compare.match_slot(it["expected"], slot):
+                kind = compare.failure_kind(slot, st)
+                rep.violation({"check": "replay", "form": "via", "text": st_in["text"].split("\n"), "phrase": it["line"], "cfg": it["cfg"],
+                               "expected": [ov, it["expected"]], "observed": ss[1],
+                               "feat": {"failure": kind, "form": "via", "phrase": it["line"]["form"]},
+                               "class": "%s|via|%s" % (kind, it["line"]["form"])})
+            break
+    rep.extra["phrases_through_variables"] = {"phrase_lines": len(cases), "operand_found_and_checked": used, "forms": sorted(forms_used)}
+    if used < len(cases) // 2 or len(forms_used) < 8:
+        raise ToolError("vacuous: the operand of only %d of %d phrase lines could be bound to a name (forms %s)" % (used, len(cases), sorted(forms_used)))
+
+
 NAMES = [["zorp"], ["zorp", "blip"], ["quux"], ["frob"], ["frob", "glorp"], ["snarf"]]
 
 
